@@ -359,6 +359,7 @@ theorem keepSim_step (hidx : IdxWF recs0) {R : Nat} {mask : Nat → DelOutcome} 
       cases a with
       | emit _ _ _ => exact ⟨rfl, hlf, hc, ht, hst⟩
       | panic => exact ⟨rfl, hlf, hc, ht, hst⟩
+      | expire _ _ _ _ => exact ⟨rfl, hlf, hc, ht, hst⟩
       | del ik raw =>
         obtain ⟨c1, c2, c3⟩ := runDelete_ctrl mask u.comp s.comp (.del ik raw) hlf hc ht
         refine ⟨rfl, c1, c2, c3, ?_⟩
@@ -540,7 +541,7 @@ theorem runA_facts :
     commitOk .tikv (run .tikv okMask (init 8 raceRecs) [.compDel]).comp.store recreateOps = true ∧
     -- all four delete calls were made, the second is the compare-and-delete of `kb`'s index record ...
     sA.pending = [] ∧
-    sA.comp.trace = [(false, encode ka 4), (true, idxKey kb), (false, encode kb 3), (false, encode kb 7)] ∧
+    sA.comp.trace = [.del (encode ka 4), .delcur (idxKey kb), .del (encode kb 3), .del (encode kb 7)] ∧
     -- ... which failed: the index record is there, with the writer's value
     sA.comp.store.get (idxKey kb) = some (be8 10) ∧
     logicalIdx sA.comp.store kb = some 10 ∧ logicalIdx sA.comp.store ka = some 5 ∧
@@ -568,7 +569,7 @@ theorem runB_facts :
     commitOk .tikv (run .tikv okMask (init 8 raceRecs) [.compDel, .compDel, .compDel, .compDel]).comp.store
       createOps = true ∧
     sB.pending = [] ∧
-    sB.comp.trace = [(false, encode ka 4), (true, idxKey kb), (false, encode kb 3), (false, encode kb 7)] ∧
+    sB.comp.trace = [.del (encode ka 4), .delcur (idxKey kb), .del (encode kb 3), .del (encode kb 7)] ∧
     sB.comp.store.get (idxKey kb) = some (be8 10) ∧
     logicalIdx sB.comp.store kb = some 10 ∧ logicalIdx sB.comp.store ka = some 5 ∧
     sB.comp.store.get (encode kb 3) = none ∧ sB.comp.store.get (encode kb 7) = none ∧
@@ -608,7 +609,7 @@ delete IS: the marker above it is skipped, nothing of `kb`'s history is removed 
 theorem runC_facts :
     (run .tikv casMask (init 8 raceRecs) [.compDel, .compDel, .compDel]).comp.lastFailed = [] ∧
     sC.pending = [] ∧
-    sC.comp.trace = [(false, encode ka 4), (true, idxKey kb), (false, encode kb 3)] ∧
+    sC.comp.trace = [.del (encode ka 4), .delcur (idxKey kb), .del (encode kb 3)] ∧
     sC.comp.lastFailed = kb ∧
     sC.comp.store.get (idxKey kb) = some (be64 7 ++ [0]) ∧
     sC.comp.store.get (encode kb 3) = some [1] ∧ sC.comp.store.get (encode kb 7) = some tombstone ∧
